@@ -46,3 +46,44 @@ pub open spec fn pow2(n: nat) -> nat decreases n { if n == 0 { 1 } else { 2 * po
 //@  before "let len = 8 - self.bits_in;"
             assert(forall|l: u32| #![auto] l <= 16u32 ==> (1u32 << l) >= 1u32) by (bit_vector);
 //@end
+
+//@extract fn put_bits_no_flush in impl OutputBufferOxide<'_> from miniz_oxide/src/deflate/core.rs
+//@  contract
+        requires old(self).bits_in + len <= 32, old(self).bits_in < 32,
+        ensures
+            final(self).bits_in == old(self).bits_in + len, final(self).inner_pos == old(self).inner_pos,
+            final(self).inner@ == old(self).inner@, final(self).local == old(self).local,
+//@end
+
+//@extract fn write_bytes in impl OutputBufferOxide<'_> from miniz_oxide/src/deflate/core.rs
+//@  contract
+        requires
+            old(self).bits_in == 0, old(self).inner_pos + bytes@.len() <= old(self).inner@.len(), old(self).inner@.len() <= 0x7FFF_FFFF_FFFF_FFFF,
+        ensures
+            final(self).inner_pos == old(self).inner_pos + bytes@.len(), final(self).bits_in == 0, final(self).bit_buffer == old(self).bit_buffer,
+            final(self).inner@.len() == old(self).inner@.len(),
+            forall|k: int| 0 <= k < bytes@.len() ==> final(self).inner@[old(self).inner_pos + k] == bytes@[k],
+            forall|k: int| 0 <= k < old(self).inner@.len() && !(old(self).inner_pos <= k < old(self).inner_pos + bytes@.len()) ==> final(self).inner@[k] == old(self).inner@[k],
+//@end
+
+//@extract struct SavedOutputBufferOxide from miniz_oxide/src/deflate/core.rs
+//@end
+
+//@extract fn save in impl OutputBufferOxide<'_> from miniz_oxide/src/deflate/core.rs
+//@  rename res
+//@  contract
+        ensures res.pos == self.inner_pos, res.bit_buffer == self.bit_buffer, res.bits_in == self.bits_in, res.local == self.local,
+//@end
+
+//@extract fn load in impl OutputBufferOxide<'_> from miniz_oxide/src/deflate/core.rs
+//@  contract
+        ensures
+            final(self).inner_pos == saved.pos, final(self).bit_buffer == saved.bit_buffer, final(self).bits_in == saved.bits_in, final(self).local == saved.local,
+            final(self).inner@ == old(self).inner@,
+//@end
+
+//@extract fn is_byte_aligned in impl OutputBufferOxide<'_> from miniz_oxide/src/deflate/core.rs
+//@  rename res
+//@  contract
+        ensures res == (self.bits_in == 0),
+//@end
